@@ -4,4 +4,5 @@ From V Require Import C18.Model.
 Extraction "c18_model.ml" run_boot boot_end run_schedule applied_after_done invocations applied_events
   is_nil_ctx bits_of target_version opt_out_attempt beyond_registry vcontains
   bt_step bt_complete bt_migration commit_ranges preserved content acc_old acc_new wf_old no_empty_range get_first
+  sdl_migrate sdl_done
   Z.of_N (* only so that the shared oracle glue finds the type z *).
